@@ -61,6 +61,41 @@ def judge(chk, cases, res, verd, pid=PID):
     return ok, cnt
 
 
+def parse_instrs(text):
+    out = []
+    for line in text.split("\n"):
+        t = line.split()
+        if not t:
+            continue
+        out.append(["", t[0]] if len(t) == 1 else [t[0], t[1]])
+    return out
+
+
+def peephole(chk, cases, res, d):
+    """spec/Peephole.tla: the three rewrites are sound against HexISA (TLC, all states of a small machine; R3 only under its side
+    condition), and xcmp's optimised directive list is exactly Peephole!Rewrite of its lowered list (mechanism grade)"""
+    recs = []
+    for c, r in zip(cases, res):
+        if 'lowered' in r and r['lowered'] and len(recs) < 1500:
+            recs.append({'id': c['id'], 'low': parse_instrs(r['lowered']), 'opt': parse_instrs(r['optimised'])})
+    if not recs:
+        return
+    can = json.loads(json.dumps(recs[0])); can['id'] = 'canary'; can['opt'] = can['opt'][:-1]
+    rf = os.path.join(d, "peep.ndjson"); vlib.write_ndjson(rf, recs + [can])
+    o = vlib.tlc_fold("Peephole", "Peephole.cfg", [rf], heap="4g")[0][0][0]
+    if 'canary' not in o['bad']:
+        raise vlib.MachineryError("peephole canary accepted")
+    if not (o['r1'] and o['r2'] and o['r3']) or o['r3u']:
+        chk.violation("spec-Peephole", "Peephole.tla's soundness theorems changed truth value: %s" % {k: o[k] for k in ('r1', 'r2', 'r3', 'r3u')})
+    drift = [b for b in o['bad'] if b != 'canary']
+    nrew = sum(1 for r in recs if len(r['low']) != len(r['opt']))
+    chk.set("peephole_rules_sound_by_TLC", {"R1": o['r1'], "R2": o['r2'], "R3_with_side_condition": o['r3'], "R3_unconditional": o['r3u'], "states": o['states']})
+    chk.set("peephole_lists_matching_Rewrite", len(recs) - len(drift)); chk.set("peephole_lists_actually_rewritten", nrew)
+    chk.set("DRIFT_optimised_lists_differing_from_Peephole_Rewrite", len(drift))
+    if drift:
+        chk.set("drift_examples", drift[:3])
+
+
 def run(tier, replay=None):
     chk = vlib.Check(PID, tier, "model_checking")
     d = vlib.rundir("c01")
@@ -68,7 +103,8 @@ def run(tier, replay=None):
         exe = vlib.build_cxx("x_case", ["x_case.cpp"])
         rng = vlib.rng(1)
         cases = gen(tier, rng)
-        res = xlib.run_cases(exe, cases, d)
+        res = xlib.run_cases(exe, cases, d, flags="o")
+        peephole(chk, cases, res, d)
         recs = [{'id': c['id'], 'prog': c['prog'],
                  'obs': {'status': r['status'] if r['status'] in ('exit', 'rejected') else r['status'], 'xv': r.get('xv', 0), 'out': r.get('out', []), 'rd': r.get('rd', 0)}}
                 for c, r in zip(cases, res)]
